@@ -14,7 +14,7 @@ SPEC_DRIVER = "drivers/SpecC08.lean"
 DRIVER_MODULES = ["BioCantor.Driver.Main", "BioCantor.Driver.Digest"]
 SPEC_DRIVER_MODULES = ["BioCantor.Driver.Main", "BioCantor.Driver.SpecDigest"]
 GEN_NEEDS = ["biotypes", "strandMembers", "cdsFrameMembers"]
-MODEL_OPS = {"tokens", "tokeq", "qexport", "vcollide", "dictrt", "digest"}
+MODEL_OPS = {"tokens", "tokeq", "qexport", "vcollide", "dictrt", "digest", "digest2", "schema", "schemafields"}
 ERR_CLASS = False
 RULE = ("one case = one operation line. obj: ONE generated object (class x parent situation x seed x profile) taken "
         "through to_dict/from_dict (+ through JSON text, + with every GUID key blanked), Schema().load/dump through "
@@ -62,7 +62,7 @@ def nontrivial(line, ans):
         return line if any(t[i] in ("S", "D") and int(t[i + 1]) >= 2 for i in range(len(t) - 1)) else None
     if op == "qexport":
         return line
-    if op in ("dictrt", "digest"):
+    if op in ("dictrt", "digest", "digest2", "schema"):
         return line
     if op == "vcollide":
         return line
@@ -215,10 +215,12 @@ def _vcollide_cases(run, hi):
 # ----------------------------------------------------------------------------------------------------------
 # dictionaries in the library's vocabulary
 
-def lib_dict(kind, d, rng, top_guid=False):
+def lib_dict(kind, d, rng, top_guid=False, no_guids=False):
     """description -> the dictionary `Cls.from_dict` reads; GUID keys None (recomputed) or given at random,
     the top-level GUID given only when `top_guid`"""
     def g(given=None):
+        if no_guids:
+            return None
         if given is None:
             given = rng.random() < 0.3
         return uuid.UUID(int=rng.getrandbits(128)) if given else None
@@ -233,19 +235,19 @@ def lib_dict(kind, d, rng, top_guid=False):
         vg = x.pop("variant_guid_int", None)
         x.update(variant_interval_guid=g(top_guid), variant_guid=None if vg is None else uuid.UUID(int=vg))
     elif kind == "gene":
-        x["transcripts"] = [lib_dict("tx", t, rng, None) for t in x["transcripts"]]
+        x["transcripts"] = [lib_dict("tx", t, rng, None, no_guids) for t in x["transcripts"]]
         x.update(gene_guid=g(top_guid), sequence_guid=g())
     elif kind == "fc":
-        x["feature_intervals"] = [lib_dict("feat", t, rng, None) for t in x["feature_intervals"]]
+        x["feature_intervals"] = [lib_dict("feat", t, rng, None, no_guids) for t in x["feature_intervals"]]
         x.update(feature_collection_guid=g(top_guid), sequence_guid=g())
     elif kind == "vc":
-        x["variant_intervals"] = [lib_dict("var", t, rng, None) for t in x["variant_intervals"]]
+        x["variant_intervals"] = [lib_dict("var", t, rng, None, no_guids) for t in x["variant_intervals"]]
         x.update(variant_collection_guid=g(top_guid), sequence_guid=g())
     elif kind == "ac":
         x.pop("shape", None)
-        x["genes"] = [lib_dict("gene", t, rng, None) for t in x["genes"]]
-        x["feature_collections"] = [lib_dict("fc", t, rng, None) for t in x["feature_collections"]]
-        x["variant_collections"] = [lib_dict("vc", t, rng, None) for t in x["variant_collections"]]
+        x["genes"] = [lib_dict("gene", t, rng, None, no_guids) for t in x["genes"]]
+        x["feature_collections"] = [lib_dict("fc", t, rng, None, no_guids) for t in x["feature_collections"]]
+        x["variant_collections"] = [lib_dict("vc", t, rng, None, no_guids) for t in x["variant_collections"]]
         x.update(sequence_guid=g(), parent_or_seq_chunk_parent=None)
     return x
 
@@ -309,6 +311,91 @@ def _dict_cases(run, per_kind):
             yield f"dictrt {kind} " + enc_val(y)
 
 
+MODEL_KINDS = ["tx", "feat", "var", "gene", "fc", "vc", "ac"]
+REQUIRED = {"tx": ["exon_starts", "exon_ends", "strand"], "feat": ["interval_starts", "interval_ends", "strand"],
+            "var": ["start", "end", "sequence", "variant_type"], "gene": ["transcripts"], "fc": ["feature_intervals"],
+            "vc": ["variant_intervals"], "ac": []}
+CHILD_KEY = {"gene": "transcripts", "fc": "feature_intervals", "vc": "variant_intervals"}
+
+
+def _schema_cases(run, per_kind):
+    """`rt`: the dictionary an imported object exports must load into its data model (spec-decided);
+    `raw`: generated dictionaries and mutations of them (unknown key, required key missing / null, null where not
+    Optional, unknown enum name, a mutated child) — accept / reject, model vs marshmallow"""
+    rng = run.rng
+    for kind in MODEL_KINDS + ["parent"]:
+        yield f"schemafields {kind}"
+    for kind in MODEL_KINDS:
+        for i in range(per_kind):
+            profile = G8.PROFILES[i % len(G8.PROFILES)]
+            if kind == "ac":
+                d = G8.gen_ac(rng, profile, shape=rng.choice(["genes", "genes+fc", "fc", "vc", "empty"]))
+            else:
+                d = G8.GEN[kind](rng, profile)
+            x = lib_dict(kind, d, rng, top_guid=None)
+            if kind == "ac":
+                x["parent_or_seq_chunk_parent"] = parent_dict(rng, d)
+            run.count(f"schema:rt:{kind}")
+            yield f"schema {kind} rt {enc_val(x)}"
+            run.count(f"schema:raw:{kind}")
+            yield f"schema {kind} raw {enc_val(x)}"
+            y = copy.deepcopy(x)
+            target = y
+            if kind in CHILD_KEY and rng.random() < 0.4:
+                target = rng.choice(y[CHILD_KEY[kind]])
+                tk = {"gene": "tx", "fc": "feat", "vc": "var"}[kind]
+            else:
+                tk = kind
+            m = rng.choice(["unknown", "unknown-guid", "drop-required", "null-required", "null-optional", "bad-strand",
+                            "bad-biotype", "null-list", "drop-optional"])
+            if m == "unknown":
+                target[rng.choice(["foo", "Strand", "exon_start", "guid2"])] = rng.choice([None, 1, "x"])
+            elif m == "unknown-guid":
+                target["guid"] = None
+            elif m == "drop-required" and REQUIRED[tk]:
+                target.pop(rng.choice(REQUIRED[tk]))
+            elif m == "null-required" and REQUIRED[tk]:
+                target[rng.choice(REQUIRED[tk])] = None
+            elif m == "null-optional":
+                target[rng.choice([k for k in sorted(target) if k not in REQUIRED[tk]])] = None
+            elif m == "bad-strand" and "strand" in target:
+                target["strand"] = rng.choice(["plus", "+", "", "Plus"])
+            elif m == "bad-biotype":
+                for k in ("transcript_type", "gene_type"):
+                    if k in target:
+                        target[k] = rng.choice(["mrna", "protein", "mRNA", "lnc_RNA"])
+            elif m == "null-list" and tk == "ac":
+                target[rng.choice(["genes", "feature_collections", "variant_collections"])] = None
+            elif m == "drop-optional":
+                target.pop(rng.choice([k for k in sorted(target) if k not in REQUIRED[tk]]))
+            run.count(f"schema:raw-mutated:{m}")
+            yield f"schema {kind} raw {enc_val(y)}"
+
+
+def _digest2_cases(run, per_kind):
+    """pairs of dictionaries without identifiers: equal content in another insertion order (same GUID demanded) /
+    one coordinate, the strand or one frame of one leaf changed (another GUID and byte stream demanded)"""
+    rng = run.rng
+    for kind in G8.KINDS:
+        for i in range(per_kind):
+            profile = G8.PROFILES[i % len(G8.PROFILES)]
+            if kind == "ac":
+                d = G8.gen_ac(rng, profile, shape=rng.choice(["genes", "genes+fc", "fc", "vc"]))
+                if d["start"] is None and d["shape"] == "vc":
+                    lo, hi = G8.span("ac", d)
+                    d["start"], d["end"] = lo, hi
+            else:
+                d = G8.GEN[kind](rng, profile)
+            a = lib_dict(kind, d, rng, no_guids=True)
+            b = lib_dict(kind, G8.permute_orders(kind, d, rng), rng, no_guids=True)
+            run.count(f"digest2:same:{kind}")
+            yield f"digest2 same {kind} {enc_val(a)} | {enc_val(b)}"
+            for label, ap in G8.perturbations(kind, d, rng, limit=2):
+                c = lib_dict(kind, ap(), rng, no_guids=True)
+                run.count(f"digest2:diff:{kind}")
+                yield f"digest2 diff {kind} {enc_val(a)} | {enc_val(c)}"
+
+
 # ----------------------------------------------------------------------------------------------------------
 
 def _obj_cases(run, seeds):
@@ -340,6 +427,8 @@ def cases(run):
     yield from _tokens_cases(run, 20000 if thorough else 1500)
     yield from _qexport_cases(run, 5000 if thorough else 500)
     yield from _dict_cases(run, 1500 if thorough else 120)
+    yield from _digest2_cases(run, 400 if thorough else 40)
+    yield from _schema_cases(run, 400 if thorough else 40)
     yield from _obj_cases(run, rnd)
     hashseeds = ",".join(str(i) for i in (range(32) if thorough else range(3)))
     for j, profile in enumerate(G8.PROFILES):
